@@ -1299,7 +1299,8 @@ def falsify_C07(ctx):
     for op, a, b, b_steps in zip(ops, r, nv, nvs):
         kind = op.split()[0]
         if kind in ("ros_tm", "ros_pp", "ros_ch") and b_steps not in ("bad-op", "panic") and a != b_steps and a not in ("panic",) \
-                and own_demand_steps_with_arrivals(op):
+                and own_demand_steps_with_arrivals(op) and int(op.split()[-1]) >= 1:
+            # (limit 0 is finding K4 and keeps its own classification below)
             dist["checked_on_steps"] = dist.get("checked_on_steps", 0) + 1
             cex.append({"kind": "ros_not_naive_on_steps", "op": op, "impl": a, "naive_on_step_offsets": b_steps,
                         "naive_all_offsets": b, "analysis": kind, "limit": int(op.split()[-1]), "reasons": op_reasons(op)})
